@@ -7,6 +7,9 @@ import sys
 from typing import Optional
 
 REPO = os.environ.get("POUPOOL_REPO", "/repo")
+# an alternative configuration: a directory holding a config.ini (the code reads it relative to the working directory)
+CONFIG_DIR = os.environ.get("POUPOOL_CONFIG_DIR") or REPO
+CONFIG_PATH = os.path.join(CONFIG_DIR, "config.ini")
 
 from . import runtime  # noqa: E402
 
@@ -18,7 +21,7 @@ def bootstrap():
     global _installed
     if _installed:
         return
-    os.chdir(REPO)
+    os.chdir(CONFIG_DIR)
     if REPO not in sys.path:
         sys.path.insert(0, REPO)
     import logging
@@ -313,6 +316,7 @@ class PoolSystem:
     def set_temp(self, key: str, value, flush: bool = True) -> None:
         """Set a temperature; flush=True also overwrites the 30-sample history (or clears it for None)."""
         self.s_temp[key]._value = value
+        self.world.emit("temp", (key, value))
         if flush:
             ma = self.world.actor("TemperatureReader").values[key]
             ma.clear()
